@@ -7,7 +7,7 @@ use crate::driver::{Ctx, Report};
 use crate::gen::*;
 use crate::rng::Gen;
 use crate::suite::{all_suites, KsfFamily, SuiteOps};
-use crate::world::{IdSpec, Violation, WIds, World};
+use crate::world::{IdSpec, Op, Violation, WIds, World};
 
 pub const OWN: &[&str] = &[
     "step_failed",
@@ -58,7 +58,18 @@ pub fn gen_world(seed: u64, idx: u64, s: &dyn SuiteOps, cover: usize) -> World {
             let k2 = respell_ksf(&mut g, &ksf, fam);
             let sctx = spell_ctx(&mut g, &ctx);
             let cctx = spell_ctx(&mut g, &ctx);
-            let (_, lops) = b.login_ops(&mut g, setup, Some(r.record), &pw, &pw, &cred, sctx, cctx, sids, cids, k2, true);
+            let (_, mut lops) = b.login_ops(&mut g, setup, Some(r.record), &pw, &pw, &cred, sctx, cctx, sids, cids, k2, true);
+            // "every random tape" includes correlated ones: now and then client and server
+            // draw from identical tapes (e.g. both seeded alike in a test bed)
+            if g.chance(1, 8) {
+                let shared = match &lops[0] {
+                    Op::LoginStart { tape, .. } => Some(tape.clone()),
+                    _ => None,
+                };
+                if let (Some(t), Some(Op::LoginRespond { tape, .. })) = (shared, lops.get_mut(1)) {
+                    *tape = t;
+                }
+            }
             ops.extend(lops);
         }
         threads.push(ops);
